@@ -96,6 +96,21 @@ func vfProcessInit() {
 				}
 			}
 		}
+		// C03 "... nor being deleted": the only thing that makes a topic refuse publishes while the store
+		// deletes it is the pause flag set before the delete starts. Store calls are atomic here, so the
+		// window itself cannot be observed; the order is asserted at the call boundary instead.
+		memdb.OnCallArgs = func(name, args string) {
+			if name != "TopicDelete" || !vsched.Active() {
+				return
+			}
+			tn := strings.Fields(args + " x")[0]
+			if globals.hub == nil || globals.hub.topics == nil {
+				return
+			}
+			if t := globals.hub.topicGet(tn); t != nil && !t.isInactive() {
+				vsched.Report("C03:topic-accepts-publishes-while-being-deleted", "store.Topics.Delete("+vfTopicKindSafe(tn)+") starts while the loaded topic is neither paused nor marked deleted: a publish handled during the delete is accepted")
+			}
+		}
 		memdb.OnCall = func(name string) {
 			if vsched.Active() && vsched.Value("store-yield") != nil {
 				vsched.Yield("store:" + name)
@@ -478,3 +493,10 @@ func vfLoadedTopics() []string {
 
 func vfQuiesce()                   { vsched.Quiesce() }
 func vfAdvance(d time.Duration) int { return vsched.Advance(d) }
+
+func vfTopicKindSafe(tn string) string {
+	if len(tn) > 3 {
+		return tn[:3]
+	}
+	return tn
+}
